@@ -31,10 +31,22 @@ def getQuery (j : Json) : Except String (List (Bytes × Bytes)) := do
   | .ok _ => pure (listQuery (← getOptBytes j "token") (← getBytes j "prefix"))
   | .error _ => getPairs j "query"
 
+/-- `clock`: [year, month, day, hour, minute, second] → (`x-amz-date`, scope date); else explicit `amz_date` / `date` -/
+def getDates (j : Json) : Except String (Bytes × Bytes) := do
+  match j.getObjVal? "clock" with
+  | .ok _ =>
+    match (← getNatList j "clock") with
+    | [y, mo, d, h, mi, s] =>
+      let t : ClockReading := ⟨y, mo, d, h, mi, s⟩
+      pure (fmtAmzDate t, fmtDate t)
+    | _ => throw "clock: six numbers expected"
+  | .error _ => pure (← getBytes j "amz_date", ← getBytes j "date")
+
 def getInputs (j : Json) : Except String Inputs := do
+  let (amz, date) ← getDates j
   pure { method := ← getBytes j "method", host := ← getBytes j "host", scheme := ← getBytes j "scheme",
          path := ← getBytes j "path", query := ← getQuery j, payloadDigest := ← getBytes j "payload_digest",
-         amzDate := ← getBytes j "amz_date", date := ← getBytes j "date", region := ← getBytes j "region",
+         amzDate := amz, date := date, region := ← getBytes j "region",
          keyId := ← getBytes j "key_id", secret := ← getBytes j "secret" }
 
 def getWire (j : Json) : Except String Wire := do
